@@ -1,6 +1,7 @@
 package main
 
 import (
+	"bytes"
 	"encoding/json"
 	"fmt"
 	"math/rand"
@@ -115,6 +116,10 @@ func c18Context() map[string]interface{} {
 		// YAML-style maps nested in string-keyed maps and lists (what a config file decodes to)
 		"cfg": map[string]interface{}{"ports": map[interface{}]interface{}{443: "https", 80: "http"}, "names": map[interface{}]interface{}{"a": 1, 2: "b"},
 			"list": []interface{}{map[interface{}]interface{}{1: "one"}, map[interface{}]interface{}{"k": []interface{}{map[interface{}]interface{}{true: 1}}}}},
+		"buf":     bytes.NewBufferString("stream-data"),
+		"rdr":     strings.NewReader("reader-data"),
+		"deflt":   map[string]interface{}{"theme": map[string]interface{}{"color": "blue", "sizes": c18SpareIface([]interface{}{1, 2}, 2)}, "title": "T"},
+		"page":    map[string]interface{}{"theme": map[string]interface{}{"color": "red", "font": "mono"}, "extra": 1},
 		"withnil": c18SpareIface([]interface{}{3, nil, 12, 7, nil, 1}, 3),
 		"a":       "str",
 		"csv":     "c,a,b",
@@ -325,6 +330,9 @@ var c18Fixed = []string{
 	"{% block b %}{% spaceless %}{% import 'lib' as zz6 %}{% endspaceless %}{% endblock %}",
 	"{% verbatim %}{% set a = 1 %}{% endverbatim %}{% spaceless %}{% from 'lib' import f as zz7 %}{% endspaceless %}",
 	"{% macro mm(q) %}{% set a = q %}{{ a }}{% endmacro %}{{ mm('inner') }}{{ _self.mm(n) }}{{ a }}",
+	// values that can be consumed (streams) and nested hashes merged by the function and the filter
+	"{{ buf }}|{{ rdr }}|{{ buf|length }}|{{ buf ~ '' }}|{{ buf|upper }}|{% if buf %}y{% endif %}|{{ rdr|default('d') }}|{{ [buf]|join }}",
+	"{{ merge(deflt, page)|json_encode }}|{{ deflt|merge(page)|json_encode }}|{% set o = merge(deflt, page) %}{{ o.theme|keys|join(',') }}|{% set o2 = merge(deflt, {'theme': {'color': 'x', 'sizes': [9]}}) %}{{ o2.theme.color }}|{{ deflt.theme|keys|join(',') }}|{{ merge(deflt.theme, page.theme)|length }}",
 	// functions handed a whole sequence from the context (also one holding nulls), spread or not
 	"{{ max(withnil) }}|{{ min(withnil) }}|{{ max(xs) }}|{{ min(xs) }}|{{ max(is) }}|{{ max(xs, 9) }}|{{ min(withnil, 0) }}|{{ max(withnil|slice(0, 3)) }}|{{ cycle(withnil, 1) }}|{{ range(1, 3)|merge(withnil)|length }}|{{ withnil|length }}",
 	"{{ withnil|default([])|join(',') }}|{{ withnil|first }}|{{ withnil|last }}|{{ withnil|sort|join(',') }}|{{ withnil|reverse|join(',') }}|{{ withnil|slice(1, 2)|join(',') }}|{{ withnil|merge([0])|join(',') }}|{{ withnil|json_encode }}|{{ withnil|keys|join }}",
@@ -574,7 +582,12 @@ func runC18(e *Env) error {
 		"(5) serial and concurrent renders sharing one context; non-trivial = renders without error to non-empty output; distinct by template"
 	// (1) regression corpus / scoping constructs
 	for _, src := range c18Fixed {
-		c18RenderChecked(e, c18MkProg("fixed", src))
+		res := c18RenderChecked(e, c18MkProg("fixed", src))
+		if res.Class == "parse-error" {
+			// a hand-written template that does not parse exercises nothing: that is a defect of this harness
+			r.Violate(Violation{Key: "harness-template-does-not-parse", What: fmt.Sprintf("the fixed C18 template %q does not parse: %v", truncate(src, 120), res.Err), Broken: "C18 harness corpus",
+				Replay: map[string]any{"kind": "src", "src": src, "err": fmt.Sprint(res.Err)}})
+		}
 		if r.Full() {
 			return nil
 		}
